@@ -271,8 +271,8 @@ def configs(tier):
             out.append(dict(case='lists', kind='residuals', method=method, ns=[3, 3], P=2, dofs=[3, 4], aslist=False))
         # precision
         for kind in ['residuals', 'measurements', 'unbalanced']:
-            if shr and kind != 'residuals':
-                continue
+            if shr:
+                continue        # inverse of the piecewise-rational shrinkage estimates: z3 unknown for some shadows -> outside
             if method == 'shrinkage_eye':
                 continue     # inverse of the piecewise-rational Ledoit-Wolf estimate: z3 unknown at 40 s -> outside
             for P in [2]:      # 3x3 symbolic inverse of a sample covariance: z3 does not finish -> outside
